@@ -313,7 +313,19 @@ def flag_rows(facts):
                 if var.get("t") not in ("const bool", "bool") or var.get("init") is None:
                     continue
                 masks = []
-                walk(var["init"], lambda x: masks.append(x) if x.get("k") == "Bin" and x.get("op") == "&" and ("v" in strip(x["l"]) or "v" in strip(x["r"])) else None)
+                # a flag test masks a byte of the image with a constant - as a term of the initialiser, possibly compared with a
+                # constant; `(word >> (i & 7)) & 1` walks a bit vector and is not one
+
+                def is_mask(x):
+                    x = strip_all(x)
+                    if x.get("k") == "Un" and x.get("op") == "!":
+                        return is_mask(x["e"])
+                    if x.get("k") == "Bin" and x.get("op") in ("==", "!=", ">", "<") and ("v" in strip(x["l"]) or "v" in strip(x["r"])):
+                        return is_mask(x["r"] if "v" in strip(x["l"]) else x["l"])
+                    if x.get("k") == "Cond":
+                        return is_mask(x["c"])
+                    return x.get("k") == "Bin" and x.get("op") == "&" and (("v" in strip(x["l"]) and strip_all(x["r"]).get("k") != "Bin") or ("v" in strip(x["r"]) and strip_all(x["l"]).get("k") != "Bin"))
+                masks = [t for t in _split_nodes(var["init"]) if is_mask(t)]
                 if masks:
                     cands.append(var)
         walk(fn["body"], v)
